@@ -11,5 +11,19 @@ trap 'tools/rmworktree.sh "$name"' EXIT
 d=$(tools/mkworktree.sh "$name")
 git -C "$d" apply "$(pwd)/$sd/patch.diff"
 for p in $props; do
-  if out=$(VERIF_REPO=$d ./check "$p" --tier ${TIER:-quick} 2>/dev/null); then echo "MISSED $sd $p: $out" | tail -1; else echo "DETECTED $sd $p: $(echo "$out" | grep VIOLATION | head -1)"; fi
+  if out=$(VERIF_REPO=$d ./check "$p" --tier ${TIER:-quick} 2>/dev/null); then res=MISSED; line=$(echo "$out" | tail -1); else res=DETECTED; line=$(echo "$out" | grep VIOLATION | head -1); fi
+  echo "$res $sd $p: $line"
+  rp=$(echo "$line" | sed -n 's/.*replay=\([^ ]*\).*/\1/p')
+  python3 - "$sd/meta.json" "$p" "$res" "$line" "$rp" "${TIER:-quick}" <<'PY'
+import json,sys,os
+mp,p,res,line,rp,tier=sys.argv[1:7]
+m=json.load(open(mp)) if os.path.exists(mp) else {}
+key=None; kinds=[]
+if rp and os.path.exists(rp):
+    r=json.load(open(rp))
+    fi=r.get("failing_input") or {}
+    key=fi.get("key"); kinds=sorted({x.get("kind") for x in r.get("broken_obligations_or_ties",[])})
+m.setdefault("check_results",{})[p]={"result":res,"tier":tier,"failing_input_key":key,"broken":kinds,"no_failing_input_found":"no-failing-input-found" in line}
+json.dump(m,open(mp,"w"),indent=1)
+PY
 done
